@@ -1,7 +1,7 @@
 #!/bin/bash
 # tools/confirm_seed.sh <out_dir> <k> : confirms a sub-agent's change k (demo clean=0, demo patched=1, suite passes) in a
 # scratch worktree and, if confirmed, copies it to seeded/<PID>-<k>/ with what was run recorded in meta.json.
-OUT="$1"; K="$2"
+OUT="$1"; K="$2"; KD="${3:-$2}"    # KD: index used for the kept directory name
 HERE="$(cd "$(dirname "${BASH_SOURCE[0]}")/.." && pwd)"
 PID="$(python3 -c "import json;print(json.load(open('$OUT/meta_$K.json'))['property'])")"
 WT="/tmp/confirm_${PID}_${K}_$$"; NB="/tmp/nbc_confirm_${PID}_${K}_$$"
@@ -14,7 +14,7 @@ git -C "$WT" apply "$OUT/change_$K.diff" || { echo "$PID-$K: PATCH DOES NOT APPL
 T="$( cd "$WT" && $E /venv/bin/python -m pytest -q -p no:cacheprovider -n 5 tests 2>&1 | tail -1 )"
 echo "$PID-$K: demo clean=$C patched=$P tests: $T"
 if [ "$C" = 0 ] && [ "$P" = 1 ] && echo "$T" | grep -q "929 passed" && ! echo "$T" | grep -q failed; then
-  D="$HERE/seeded/$PID-$K"; mkdir -p "$D"
+  D="$HERE/seeded/$PID-$KD"; mkdir -p "$D"
   cp "$OUT/change_$K.diff" "$D/patch.diff"; cp "$OUT/demo_$K.py" "$D/demo.py"
   python3 - "$OUT/meta_$K.json" "$D/meta.json" "$T" <<'EOP'
 import json, sys
@@ -24,7 +24,7 @@ m['confirmed'] = {'demo_exit_on_clean_tree': 0, 'demo_exit_with_patch': 1, 'suit
 m['origin'] = 'independent sub-agent given only the property text and its own scratch worktree'
 json.dump(m, open(sys.argv[2], 'w'), indent=1)
 EOP
-  echo "$PID-$K: KEPT"
+  echo "$PID-$K: KEPT as $PID-$KD"
 else
   echo "$PID-$K: NOT CONFIRMED"
 fi
